@@ -193,11 +193,13 @@ class Contract:
             s.ctx = ctx
             s.interp = interp
             s.mode = "verify"
+            sfx = f"[{s.case}]" if getattr(s, "case", None) else ""  # optional case tag (setup may enumerate cases)
             for lab, t in self.labelled(self.requires(s)):
                 ctx.assume(t)
             s.old = self.snapshot(s) if self.snapshot else None
             names = self.param_names()
-            args = [getattr(s, n) for n in names if hasattr(s, n)]
+            pv = getattr(s, "param_values", None) or {}  # explicit values for parameters whose name collides with NS bookkeeping (`mode`, `ctx`, `old`, ...)
+            args = [pv[n] if n in pv else getattr(s, n) for n in names if n in pv or hasattr(s, n)] + list(getattr(s, "varargs", ()))  # varargs: extra positionals for *args
             kwargs = getattr(s, "kwargs", {})
             clo = interp.closure_of(real)
             try:
@@ -209,9 +211,9 @@ class Contract:
                 for EC, cond in self.raises.items():
                     if issubclass(E, EC):
                         matched = True
-                        ctx.prove(f"raises:{EC.__name__}:only-when", cond(s), kind="raises", assume_after=False)
+                        ctx.prove(f"raises:{EC.__name__}:only-when{sfx}", cond(s), kind="raises", assume_after=False)
                 if not matched and not self.any_raise_ok:
-                    ctx.prove(f"no-raise:{E.__name__}@{getattr(interp, 'cur_line', '?')}", z3.BoolVal(False), kind="safety",
+                    ctx.prove(f"no-raise:{E.__name__}@{getattr(interp, 'cur_line', '?')}{sfx}", z3.BoolVal(False), kind="safety",
                               assume_after=False, meta={"exc": repr(r.exc)})
                 if self.on_raise is not None:
                     for lab, t in self.labelled(self.on_raise(s, E)):
@@ -219,7 +221,7 @@ class Contract:
                 return ("raise", E.__name__)
             s.result = res
             for EC, cond in self.raises.items():
-                ctx.prove(f"raises:{EC.__name__}:whenever", z3.Not(lift(cond(s))), kind="raises")
+                ctx.prove(f"raises:{EC.__name__}:whenever{sfx}", z3.Not(lift(cond(s))), kind="raises")
             ens = self.labelled(self.ensures(s))
             for lab, t in ens:
                 if mutate_goal:
